@@ -126,7 +126,51 @@ def check_bc(case):
     return o
 
 
+@st.composite
+def layout_case(draw):
+    c = draw(so_case())
+    # later times as well (the published tables go to tau = 100): far ahead of the wave the field then really is below every noise floor
+    c['tau'] = draw(st.one_of(logu(0.05, 100.0), logu(20.0, 100.0)))
+    front = 0.3 + 2.0 * math.sqrt(c['tau'] / c['eps'])
+    c['hot'] = [draw(uni(0.0, 1.0)) * min(10.0, front) for _ in range(2)] + [draw(st.one_of(logu(1e-9, 1e-3), st.just(0.0), uni(0.0, 0.1)))]
+    c['cold'] = [draw(uni(1.5, 4.0)) * (front + c['tau'] / 2 + 10.0) for _ in range(2)]
+    c['order'] = draw(st.permutations(range(5)))
+    c['cold_first'] = draw(st.booleans())
+    return c
+
+
+def check_layout(case):
+    """The equations are stated for every x > 0: the temperatures a user gets at heated points must be the same whatever else is in the request -
+    in particular when cold points far ahead of the wave come first or in between (positions need not be ascending)."""
+    o = Out()
+    P = case['params']
+    s = cat.make_solver(case)
+    tau = case['tau']
+    pts = case['hot'] + case['cold']
+    order = list(case['order'])
+    if case['cold_first']:
+        order = [3] + [i for i in order if i != 3]
+    xs = [pts[i] for i in order]
+    U, V = uv(s, P, xs, tau)
+    s1 = cat.make_solver(case)
+    for j, i in enumerate(order):
+        u1, v1 = uv(s1, P, [pts[i]], tau)
+        kind = 'heated' if i < 3 else 'cold'
+        o.close('u at a %s point does not depend on the rest of the request' % kind, float(U[j]), float(u1[0]), 1e-9, atol=1e-12, x=pts[i], pos_in_request=j, request=xs)
+        o.close('v at a %s point does not depend on the rest of the request' % kind, float(V[j]), float(v1[0]), 1e-9, atol=1e-12, x=pts[i], pos_in_request=j, request=xs)
+    cold_u = [float(U[j]) for j, i in enumerate(order) if i >= 3]
+    U3, V3 = uv(s1, P, [1e-3], tau)
+    us, vs = uv(s1, P, [pts[2]], tau)
+    # (within 1e-3 mean free paths of the surface u changes by less than 1e-3 (2/sqrt3 u_x = u - 1 there), v by less still)
+    o.close('u within 1e-3 mean free paths of the surface is the surface value', float(us[0]), float(U3[0]), 0.0, atol=2e-3 * (1 + pts[2] / 1e-3), x=pts[2]) if pts[2] <= 0.1 else None
+    o.label('tau>=20' if tau >= 20 else 'tau<20', 'near-surface point' if 0 < pts[2] < 1e-3 else 'no near-surface point', 'cold point first' if order[0] >= 3 else 'heated point first',
+            'cold u<1e-8' if min(cold_u) < 1e-8 else 'cold u>=1e-8')
+    o.nontrivial = order != sorted(order, key=lambda i: pts[i])
+    return o
+
+
 OBLIGATIONS = [
     Obligation('suolson-pde', so_case(), check_pde, quick=160, thorough=5000, min_per_shard=4),
     Obligation('suolson-marshak-and-decay', bc_case(), check_bc, quick=96, thorough=3000, min_per_shard=4),
+    Obligation('suolson-request-layout', layout_case(), check_layout, quick=96, thorough=3000, min_per_shard=4),
 ]
